@@ -419,6 +419,29 @@ impl WireClient {
             kernel::wait(Wait::Any(vec![Wait::PipeReadable(rx), Wait::Until(deadline)]), false);
         }
     }
+    /// Like `request`, but returns the lines received so far when the sentinel's reply does not arrive
+    /// (nun-db drops a reply when the session's channel already holds more than 100 undelivered
+    /// messages); the flag says whether the sentinel was seen.
+    pub fn request_lossy(&mut self, line: &str, timeout_ms: u64) -> (Vec<String>, bool) {
+        self.sentinel += 1;
+        let mark = format!("zz{}", self.sentinel);
+        let mut out = Vec::new();
+        if !self.send_line(line) || !self.send_line(&mark) {
+            return (out, false);
+        }
+        let want = format!("error unknown command: {} ", mark);
+        loop {
+            match self.recv_line(timeout_ms) {
+                Some(l) => {
+                    if l == want {
+                        return (out, true);
+                    }
+                    out.push(l);
+                }
+                None => return (out, false),
+            }
+        }
+    }
     /// Read the greeting the server sends on connect.
     pub fn greeting(&mut self, timeout_ms: u64) -> bool {
         matches!(self.recv_line(timeout_ms), Some(l) if l.trim() == "ok")
